@@ -103,7 +103,17 @@ fn gen(rng: &mut Rng, _idx: u64, tier: Tier) -> Case {
             4 | 5 | 6 => { let mb = mb_bds17(ac.caps); (mk(rng, ac, mb), "bds17".into()) }
             7 => { let mb = mb_bds17(ac.caps) | (1u64 << rng.below(20)); (mk(rng, ac, mb), "bds17-reserved-bit".into()) }
             8 => { let mb = mb_bds20(pack_callsign(&gen::callsign(rng))); (mk(rng, ac, mb), "bds20".into()) }
-            9 => { let mb = mb_bds30(rng.bits(48)); (mk(rng, ac, mb), "bds30".into()) }
+            9 => {
+                let mut mb = mb_bds30(rng.bits(48));
+                let mut tag = "bds30";
+                if n_ac > 1 && rng.chance(0.5) {
+                    // threat identity = the Mode S address of another aircraft in the table (TTI = 01)
+                    let other = addrs[(a + 1) % n_ac] as u64;
+                    mb = (mb & !(0x3u64 << 26) & !(0xFF_FFFFu64 << 2)) | (0b01u64 << 26) | ((other & 0xFF_FFFF) << 2);
+                    tag = "bds30-names-other";
+                }
+                (mk(rng, ac, mb), tag.into())
+            }
             10 | 11 => { let mut f4 = gen::valid_f40(rng); f4.s_mode = 1; f4.s_src = 1; (mk(rng, ac, mb_bds40(&f4)), "bds40".into()) }
             12 => { let mb = mb_bds40(&gen::valid_f40(rng)) | (1u64 << (56 - *rng.pick(&[40u32, 43, 47, 52, 53]))); (mk(rng, ac, mb), "bds40-reserved-bit".into()) }
             13 | 14 | 15 => { let f5 = if rng.chance(0.3) { boundary50(rng) } else { gen::valid_f50(rng) }; let t = if f5.tar_sign == 1 { "bds50-left-turn" } else { "bds50-right-turn" }; (mk(rng, ac, mb_bds50(&f5)), t.into()) }
@@ -210,6 +220,16 @@ fn check(case: &Case, st: &mut Stats) -> Vec<Violation> {
             17 => { if ca >= 4 { if g.ca == Tri::No { g.ca = Tri::Maybe; } } else if g.ca != Tri::No { g.ca = Tri::Maybe; } continue; }
             20 | 21 => {}
             _ => continue,
+        }
+        // a reply of one aircraft never changes what was derived from the Comm-B replies of another
+        for (k, rb) in before.iter() {
+            if *k == a { continue; }
+            if let Some(ra) = s.after.get(k) {
+                if fields40(ra) != fields40(rb) || fields50(ra) != fields50(rb) || fields60(ra) != fields60(rb) || ra.ais != rb.ais || ra.threat_encounter != rb.threat_encounter || (ra.cap_flags, ra.cap_bds) != (rb.cap_flags, rb.cap_bds) {
+                    v.push(viol("C10.ungated-change", i, format!("a DF{} reply of {:06X} changed Comm-B derived fields of {:06X}, which sent nothing: {}", c.df, a, k, crate::row::diff_fields(rb, ra).join("; ")), json!({"other_aircraft": true, "df": c.df, "tag": s.tag.split(':').next().unwrap_or("")})));
+                    break 'steps;
+                }
+            }
         }
         let (Some(prev), Some(new)) = (prev, s.after.get(&a)) else { continue }; // row-creating reply: address only
         st.oracle_evals += 1;
